@@ -18,16 +18,74 @@ class Undecided(Exception):
 PKG = "labella"
 
 
+def acopy(x):
+    """Deep copy of an AST node (or a list of nodes) that does not climb the `_parent` links out of the copied subtree
+    (an ordinary deepcopy follows the root's `_parent` and copies the whole module)."""
+    import copy
+
+    memo = {}
+    for r in (x if isinstance(x, list) else [x]):
+        p = getattr(r, "_parent", None)
+        if p is not None:
+            memo[id(p)] = None
+        if isinstance(r, ast.AST):
+            for n in ast.walk(r):
+                # Load/Store/Add/... objects are shared singletons of the parser (and carry a stray `_parent`): share them
+                if isinstance(n, (ast.expr_context, ast.operator, ast.boolop, ast.unaryop, ast.cmpop)):
+                    memo[id(n)] = n
+    return copy.deepcopy(x, memo)
+
+
+def _canonical_loops(tree):
+    """`while True: if C: break; B` *is* `while not C: B` (the exit test runs first on every pass, `continue` in B re-tests
+    either way, there is no `else`): every rule sees the second spelling.  Exits written after other statements of the body
+    (loop-and-a-half) are a different loop and are left to the rules that know how to rotate them."""
+
+    class T(ast.NodeTransformer):
+        def visit_While(self, node):
+            self.generic_visit(node)
+            if isinstance(node.test, ast.Constant) and node.test.value is True and not node.orelse and len(node.body) >= 1:
+                conds = []
+                j = 0
+                while j < len(node.body) and isinstance(node.body[j], ast.If) and not node.body[j].orelse and len(node.body[j].body) == 1 and isinstance(node.body[j].body[0], ast.Break):
+                    conds.append(node.body[j].test)
+                    j += 1
+                if conds:
+                    def neg(e):
+                        if isinstance(e, ast.UnaryOp) and isinstance(e.op, ast.Not):
+                            return e.operand
+                        return ast.copy_location(ast.UnaryOp(op=ast.Not(), operand=e), e)
+
+                    tests = [neg(c) for c in conds]
+                    test = tests[0] if len(tests) == 1 else ast.copy_location(ast.BoolOp(op=ast.And(), values=tests), tests[0])
+                    body = node.body[j:] or [ast.copy_location(ast.Pass(), node)]
+                    return ast.copy_location(ast.While(test=test, body=body, orelse=[]), node)
+            return node
+
+        def visit_AnnAssign(self, node):
+            # `name: T = value` is `name = value` for everything decided here (annotations are not evaluated for locals and
+            # carry no behaviour); a bare `name: T` declares and does nothing
+            self.generic_visit(node)
+            if node.value is not None:
+                return ast.copy_location(ast.Assign(targets=[node.target], value=node.value), node)
+            return node
+
+    tree = T().visit(tree)
+    ast.fix_missing_locations(tree)
+    return tree
+
+
 class Module:
     def __init__(self, name, path, src):
         self.name = name
         self.path = path
         self.src = src
-        self.tree = ast.parse(src, filename=path)
+        self.tree = _canonical_loops(ast.parse(src, filename=path))
         self.digest = hashlib.sha256(src.encode()).hexdigest()[:16]
         for n in ast.walk(self.tree):
             for c in ast.iter_child_nodes(n):
-                c._parent = n
+                if not isinstance(c, (ast.expr_context, ast.operator, ast.boolop, ast.unaryop, ast.cmpop)):
+                    c._parent = n
         self.tree._parent = None
         # import aliases: local name -> ("module", modname) | ("symbol", modname, sym)
         self.imports = {}
